@@ -116,6 +116,16 @@ fn c06_case(seed: u64, index: u64, md: &mut Model, rep: &mut Report) {
                     _ => rep.disagree(json!({"kind": "write_blocks_from transcription", "model": m.chars().take(500).collect::<String>(), "impl": hex(&u), "store": hex(&whole), "sv": hex(&sv_used.encode_v1()), "case": {"stream": 106, "index": index, "seed": seed}})),
                 }
             }
+            if v2 && !full {
+                let whole = h.reps[a].doc.transact().encode_diff_v1(&StateVector::default());
+                let m = md.ask(&format!("WBF diff {} {}", hex(&whole), hex(&sv_used.encode_v1())));
+                let mut it = m.split(' ');
+                if let (Some("ok"), Some(hx)) = (it.next(), it.next()) {
+                    let c = md.ask(&format!("DEC same12 {} {}", hx, hex(&u)));
+                    rep.count("c06_v2_diffs_compared_with_the_transcription_of_write_blocks_from");
+                    if c != "ok same" { rep.disagree(json!({"kind": "write_blocks_from transcription vs encode_diff_v2 (DEC same12)", "answer": c.chars().take(700).collect::<String>(), "model_v1": hx, "impl_v2": hex(&u), "case": {"stream": 106, "index": index, "seed": seed}})); }
+                }
+            }
             let res = if v2 { bb.apply_v2(&u) } else { bb.apply_v1(&u) };
             rep.count("c06_exchanges");
             let ctx = json!({"a": a, "b": b, "v2": v2, "full_state": full, "stale_sv": stale, "update": hex(&u)});
@@ -513,6 +523,17 @@ fn c13_case(seed: u64, index: u64, md: &mut Model, rep: &mut Report) {
                     let e = md.ask(&format!("SNP ext {} {}", hex(&wholes[si]), hex(&now)));
                     if e.starts_with("ok ext=1") { rep.count("c13_later_stores_that_extend_the_snapshot_store"); if e.contains("holes=1") { rep.count("c13_snapshot_stores_with_holes"); } }
                     else { rep.disagree(json!({"kind": "a later store does not extend the store the snapshot was taken of (SNP ext)", "answer": e, "then": hex(&wholes[si]), "now": hex(&now), "case": {"stream": 113, "index": index, "seed": seed}})); }
+                }
+                // the v2 restore carries the same blocks and the same delete set as the transcription's v1 restore
+                if v2 {
+                    let now = reps[*sr].doc.transact().encode_diff_v1(&StateVector::default());
+                    let m = md.ask(&format!("SNP enc 1 {} {}", hex(&now), hex(&s.encode_v1())));
+                    let mut it = m.split(' ');
+                    if let (Some("ok"), Some(hx)) = (it.next(), it.next()) {
+                        let c = md.ask(&format!("DEC same12 {} {}", hx, hex(&bytes)));
+                        rep.count("c13_v2_restores_compared_with_the_transcription");
+                        if c != "ok same" { rep.disagree(json!({"kind": "encode_state_from_snapshot transcription vs the v2 restore (DEC same12)", "answer": c.chars().take(700).collect::<String>(), "model_v1": hx, "impl_v2": hex(&bytes), "case": {"stream": 113, "index": index, "seed": seed}})); }
+                    }
                 }
                 let fresh = Replica::new(900, DocCfg::default());
                 let res = if v2 { fresh.apply_v2(&bytes) } else { fresh.apply_v1(&bytes) };
